@@ -138,7 +138,12 @@ static void build_injections(const std::string &doc, const RefResult &ref, std::
 		bool needs_sep = !tk.empty() && (tk.back().k == RefTok::NUMBER || tk.back().k == RefTok::LITERAL);
 		for (size_t j = 0; j < 18; j++)
 		{
-			std::string m = doc.substr(0, ref.end) + (needs_sep || (salt + j) % 3 == 0 ? " " : "") + junk[j];
+			// after a number or literal a separating blank keeps the junk from extending the token - except that a
+			// byte which cannot continue a number may follow a top-level number directly ("12x")
+			bool numchar = strchr("0123456789.eE+-", junk[j][0]) != nullptr;
+			bool direct_ok = !tk.empty() && tk.back().k == RefTok::NUMBER && !numchar && junk[j][0] != 'I' && junk[j][0] != 'i' && junk[j][0] != '/';
+			bool sep = (needs_sep && !(direct_ok && (salt + j) % 2 == 0)) || (!needs_sep && (salt + j) % 3 == 0);
+			std::string m = doc.substr(0, ref.end) + (sep ? " " : "") + junk[j];
 			Inj &x = add(K_TRAILING_BYTES, m, true, ref.end, 0);
 			x.value_end = ref.end;
 		}
